@@ -656,6 +656,8 @@ TRACE_FOCUS = {
     "C03": ["invocation.seq", "invocation.reply"], "C04": ["responses", "invocation.reply"],
     "C05": ["invocation.info", "invocation.reads"], "C08": ["invocation.reads", "state", "views"],
     "C10": ["invocation.reads", "views"], "C17": ["modules"],
+    "C11": ["result", "state", "invocation.info"], "C12": ["result", "state", "invocation.info"],
+    "C13": ["result", "responses", "state"],
 }
 
 
@@ -752,6 +754,24 @@ STAKING = {
 }
 
 
+def sim_and_replay(ev, module, cfg, layer, num, depth, timeout=1500, env=None):
+    """deep random behaviours from TLC's simulation mode (the configuration prints each completed behaviour), replayed"""
+    name = os.path.basename(cfg)[:-4]
+    res, rep = run_tlc(module, cfg, timeout, f"{ev.pid}-{name}", workers=8, coverage=False, simulate=num, depth=depth,
+                       pipe_to=[MTV, "replay", layer, "-"], env=env, expect_ok=False)
+    if res.violated:
+        spec_violation(ev, name, res)
+    ev.runs.append({"stage": name + " (tlc -simulate)", "behaviours_replayed": rep.get("scripts"), "depth": depth,
+                    "mismatches": rep.get("mismatch_count", 0), "extra": rep.get("extra", {})})
+    ev.traces += rep.get("scripts", 0)
+    ev.evaluations += rep.get("checks", 0)
+    ev.nontrivial += rep.get("distinct_nontrivial", 0)
+    for m in rep.get("mismatches", []):
+        ev.violations.append((m["path"], m["what"]))
+    if rep.get("scripts", 0) == 0:
+        raise ToolError(f"simulation {name} produced no behaviour:\n" + res.log[-1500:])
+
+
 def check_staking(tier, ev):
     c = STAKING[ev.pid]
     ev.rule = ("TLC enumerates every history (up to MaxOps operations) of delegate / undelegate / redelegate / withdraw / "
@@ -774,6 +794,9 @@ def check_staking(tier, ev):
                       emitting=["Delegate", "Undelegate", "Slash", "Advance"],
                       env={"MTV_FOCUS": c["focus"]}, need_features=c["need"] if first else ())
         first = False
+    # deep random histories (20 operations) from TLC's simulation mode
+    sim_and_replay(ev, "mc/MC_Staking.tla", "mc/MC_Staking_sim.cfg", "staking", 60 if tier == "quick" else 1500, 45,
+                   env={"MTV_FOCUS": c["focus"]})
     # design-level sanity: the two behaviours of the code before its repair are rejected by TLC
     for name, expect in (("dust_prefix", "StakersConsistent"), ("drift_prefix", "SlashKeepsWhole")):
         res, _ = run_tlc("mc/MC_Staking.tla", f"mc/MC_Staking_{name}.cfg", 900, f"{ev.pid}-{name}", coverage=False, expect_ok=False)
@@ -798,7 +821,7 @@ TRACE_SPEC = {"C06": ("trace/Trace_Overlay.tla", "trace/Trace_Overlay.cfg"),
               "C07": ("trace/Trace_Prefixed.tla", "trace/Trace_Prefixed.cfg"),
               "C09": ("trace/Trace_Bank.tla", "trace/Trace_Bank.cfg"),
               "C18": ("trace/Trace_Bech32.tla", "trace/Trace_Bech32.cfg")}
-for _p in ("C01", "C02", "C03", "C04", "C05", "C08", "C10", "C17"):
+for _p in ("C01", "C02", "C03", "C04", "C05", "C08", "C10", "C11", "C12", "C13", "C17"):
     TRACE_SPEC[_p] = ("trace/Trace_Chain.tla", "trace/Trace_Chain.cfg")
 
 
